@@ -177,12 +177,20 @@ func (d *Device) invokeActionRelease(action config.Action) {
 	}
 }
 
-// releaseAxisAction registers that an axis no longer triggers the action, unless an action key still holds it
-func (d *Device) releaseAxisAction(action config.Action) {
+// actionHeldByKey tells if one of the keys that are down is mapped to the action
+func (d *Device) actionHeldByKey(action config.Action) bool {
 	for code := range d.keyTracker {
 		if a, ok := d.config.ActionMapping[code]; ok && a == action {
-			return
+			return true
 		}
+	}
+	return false
+}
+
+// releaseAxisAction registers that an axis no longer triggers the action, unless an action key still holds it
+func (d *Device) releaseAxisAction(action config.Action) {
+	if d.actionHeldByKey(action) {
+		return
 	}
 	d.invokeActionRelease(action)
 	delete(d.actionTracker, action)
